@@ -4,8 +4,8 @@
 The value-level model (`Model/Seq.lean`) reads the source before it updates the destination, so it
 cannot exhibit an ordering defect between the two when they are the same object.  This file models
 just that one function over an explicit heap (blocks of cells, object records `{ptr, size, cap}` in a
-table, so `src` may be the destination), once with the statement order of the current tree
-(`appendShipped`) and once with the order of `notes/fix-array-self-append.diff` (`appendPatched`), in
+table, so `src` may be the destination), once with the statement order the tree had before commit 5f6da32
+(`appendShipped`) and once with the order of that commit (`appendPatched`, the current code), in
 checked semantics (`Except Fault`).
 
 What is proved here is by kernel evaluation on concrete worlds (labelled tests, `decide`): the shipped
@@ -108,7 +108,7 @@ def copyLoop (w : World) (dst src : Option Nat) : Nat → Nat → Nat → Except
     let w' ← writeCell w dst j v
     copyLoop w' dst src k (i + 1) (j + 1)
 
-/-- The function as it is in the tree now (after ea6fc6e): `src.Size()` is read three times; the third
+/-- The function as it was between ea6fc6e and 5f6da32: `src.Size()` is read three times; the third
 read comes after `index_ += …`. -/
 def appendShipped (w : World) (r s : Nat) : Except Fault World := do
   let d ← getObj w r
@@ -122,7 +122,7 @@ def appendShipped (w : World) (r s : Nat) : Except Fault World := do
   let s2 ← getObj w2 s                                    -- src.First(), src.Size() read again
   copyLoop w2 d1.ptr s2.ptr s2.size 0 off
 
-/-- The order of `notes/fix-array-self-append.diff`: `src.Size()` is read once, before anything moves. -/
+/-- The current code (5f6da32): `src.Size()` is read once, before anything moves. -/
 def appendPatched (w : World) (r s : Nat) : Except Fault World := do
   let d ← getObj w r
   let sr ← getObj w s
